@@ -1679,17 +1679,31 @@ where
                             continue;
                         }
 
-                        let response = self
-                            .receive_server_message(server, &address, &pool, &self.stats.clone())
-                            .await?;
+                        // The reply can be more than the COPY's completion: statements that
+                        // follow the COPY in the same query run now, and a large result arrives
+                        // in several pieces.
+                        loop {
+                            let response = self
+                                .receive_server_message(
+                                    server,
+                                    &address,
+                                    &pool,
+                                    &self.stats.clone(),
+                                )
+                                .await?;
 
-                        match write_all_flush(&mut self.write, &response).await {
-                            Ok(_) => (),
-                            Err(err) => {
-                                server.mark_bad(err.to_string().as_str());
-                                return Err(err);
+                            match write_all_flush(&mut self.write, &response).await {
+                                Ok(_) => (),
+                                Err(err) => {
+                                    server.mark_bad(err.to_string().as_str());
+                                    return Err(err);
+                                }
+                            };
+
+                            if !server.is_data_available() {
+                                break;
                             }
-                        };
+                        }
 
                         if !server.in_transaction() {
                             self.stats.transaction();
